@@ -6,3 +6,4 @@ import Zeno.Props.C13
 import Zeno.Props.C17
 import Zeno.Props.C14
 import Zeno.Props.C09
+import Zeno.Props.C15
